@@ -151,6 +151,13 @@ class Prop(PropBase):
             for seq in (["ti 2 65 66"], ["ti 2 65 66", "ti 2 65 66"], ["me", "md"], ["sz 9 4", "mv 2 2", "we 5 65 0 0 0 1 0 0 0 9 0 0 1 24 27 25", "mv 3 2"],
                         ["we 18 226 148 129 0 9 0 0 0 9 0 0 22 24 27 25", "we 5 66 0 0 0 9 0 0 0 9 0 0 22 24 27 25"]):
                 out.append(Case("M %d %d %d ; %s" % (bits + (" ; ".join(seq),)), sweep="shared-manipulator-objects", cfgs=tg.configs(rng, 1)))
+        # ONE canvas drawn by two or three screens (each with its own terminal) in turn - kind `K`
+        from .C03 import CFGS_NOIMM
+        for i in range(200 if tier == "quick" else 4000):
+            body = sg.frames(rng, rng.choice([1, 2, 3, 4]))
+            rest = body.split(" ; ", 1)[1] if " ; " in body else ""
+            bits = rng.choice(["0 0", "0 16", "16 0 0", "0 0 0"])
+            out.append(Case("K %s ; %s" % (bits, rest), tag="shared-canvas", cfgs=[rng.choice(CFGS_NOIMM)]))
         for i in range(400 if tier == "quick" else 8000):
             out.append(Case(tg.multi_history(rng, rng.choice([2, 3, 5, 8, 13, 21])), tag="shared-manipulator-objects", cfgs=tg.configs(rng, 1)))
         return out
